@@ -1,6 +1,7 @@
 import SfntV.Model.Metrics
 import SfntV.Model.Caret
 import SfntV.Model.Os2
+import SfntV.Model.MetricsWriter
 import SfntV.Spec.Metrics
 
 namespace SfntV.Drive.Metrics
@@ -210,6 +211,22 @@ def handle (op : String) (fs : List (String × String)) : String :=
     | some b => showWith (decodeMaxp b) (fun m =>
         (s!"{m.numGlyphs};" ++ (match m.ttf with | some v => natsToString v | none => "-")))
     | none => "bad-case"
+  else if op == "metrics.wbbox" then
+    match (getField fs "ext").bind parseRects with
+    | some (some es) => showRect (fontBBoxModel es)
+    | _ => "bad-case"
+  else if op == "metrics.wfixed" then
+    match (getField fs "w").bind parseInts with
+    | some (some ws) => showBool (isFixedPitchModel ws)
+    | _ => "bad-case"
+  else if op == "metrics.wos2" then
+    match (getField fs "w").bind parseInts, (getField fs "ext").bind parseRects,
+          getNat fs "fmt", (getField fs "codes").bind parseInts with
+    | some (some ws), some (some es), some fmt, some (some codes) =>
+      let cr := if fmt == 4 then codeRange4 codes else if fmt == 12 then codeRange12 codes true (0, 0) else (0, 0)
+      let win := winMetricsModel (fontBBoxModel es)
+      s!"{avgWidthModel ws},{charIndexModel cr.1},{charIndexModel cr.2},{win.1},{win.2}"
+    | _, _, _, _ => "bad-case"
   else if op == "metrics.os2enc" then
     match parseOs2 fs with
     | some o => "ok:" ++ toHex (encodeOs2 o)
